@@ -12,20 +12,21 @@ Section Faults.
   Variable enc : A -> D.
   Variable dec : D -> res A.
   Variable pick_min : forall X : Type, (X -> X -> bool) -> list X -> option (X * list X).
+  Variable eof : bool.
 
   Notation world := (world D).
   Notation wsorter := (wsorter K D).
   Notation w_spill := (w_spill K D lt pick_min).
   Notation w_add := (w_add A K D keyf lt enc pick_min).
-  Notation w_iter := (w_iter A K D keyf lt dec pick_min).
-  Notation w_advance := (w_advance A K D keyf dec).
-  Notation w_cursors := (w_cursors A K D keyf dec).
-  Notation w_merge := (w_merge A K D keyf lt dec pick_min).
+  Notation w_iter := (w_iter A K D keyf lt dec pick_min eof).
+  Notation w_advance := (w_advance A K D keyf dec eof).
+  Notation w_cursors := (w_cursors A K D keyf dec eof).
+  Notation w_merge := (w_merge A K D keyf lt dec pick_min eof).
   Notation w_close := (w_close K D).
   Notation w_close_loop := (w_close_loop D).
-  Notation w_step := (w_step A K D keyf lt enc dec pick_min).
-  Notation w_run := (w_run A K D keyf lt enc dec pick_min).
-  Notation w_workload := (w_workload A K D keyf lt enc dec pick_min).
+  Notation w_step := (w_step A K D keyf lt enc dec pick_min eof).
+  Notation w_run := (w_run A K D keyf lt enc dec pick_min eof).
+  Notation w_workload := (w_workload A K D keyf lt enc dec pick_min eof).
   Notation wpaths := (wpaths K D).
   Notation wfds := (wfds K D).
   Notation wstash := (wstash K D).
@@ -38,7 +39,7 @@ Section Faults.
   (* how an operation moves the fault schedule: the counter only goes down;
      when it fires, the operation reports OSError with the scheduled errno;
      `strict`: the operation has no other way of failing *)
-  Definition fsurf (w w1 : world) (e : option exn) : Prop :=
+  Definition fsurfx (w w1 : world) (e : option exn) : Prop :=
     (nx w <= nx w1)%nat /\
     (flt w = None -> flt w1 = None /\ hit D w1 = hit D w) /\
     (forall n eno, flt w = Some (n, eno) ->
@@ -46,10 +47,10 @@ Section Faults.
   Definition strict (w w1 : world) (e : option exn) : Prop :=
     e <> None -> flt w <> None /\ flt w1 = None.
 
-  Lemma fsurf_refl w : fsurf w w None.
-  Proof. unfold fsurf. split; [lia |]. split; [auto |]. intros n eno F. left. exists n. auto. Qed.
+  Lemma fsurfx_refl w : fsurfx w w None.
+  Proof. unfold fsurfx. split; [lia |]. split; [auto |]. intros n eno F. left. exists n. auto. Qed.
 
-  Lemma fsurf_seq w w1 w2 e : fsurf w w1 None -> fsurf w1 w2 e -> fsurf w w2 e.
+  Lemma fsurfx_seq w w1 w2 e : fsurfx w w1 None -> fsurfx w1 w2 e -> fsurfx w w2 e.
   Proof.
     intros (N1 & A1 & B1) (N2 & A2 & B2). split; [lia |]. split.
     - intros F. destruct (A1 F) as (F1 & H1). destruct (A2 F1) as (F2 & H2). split; congruence.
@@ -58,7 +59,7 @@ Section Faults.
   Qed.
 
   Ltac fin :=
-    unfold fsurf, strict; simpl;
+    unfold fsurfx, strict; simpl;
     repeat match goal with
            | |- _ /\ _ => split
            | |- forall _, _ => intro
@@ -72,44 +73,41 @@ Section Faults.
     try (left; eexists; split; reflexivity); try (right; split; reflexivity).
 
   Lemma mkstemp_f (w : world) r w1 : w_mkstemp D w = (r, w1) ->
-    fsurf w w1 (err_of r) /\ strict w w1 (err_of r) /\
+    fsurfx w w1 (err_of r) /\ strict w w1 (err_of r) /\
     (forall id, r = Ok id -> id = nx w /\ (S (nx w) <= nx w1)%nat).
   Proof.
     unfold w_mkstemp, tick. destruct (flt w) as [[[| n] eno] |] eqn:F; intros H; inversion H; subst; fin.
   Qed.
 
-  Lemma open_w_f id (w : world) r w1 : w_open_w D id w = (r, w1) -> fsurf w w1 (err_of r) /\ strict w w1 (err_of r).
+  Lemma open_w_f id (w : world) r w1 : w_open_w D id w = (r, w1) -> fsurfx w w1 (err_of r) /\ strict w w1 (err_of r).
   Proof. unfold w_open_w, tick. destruct (flt w) as [[[| n] eno] |] eqn:F; intros H; inversion H; subst; fin. Qed.
 
-  Lemma write_len_f (w : world) r w1 : w_write_len D w = (r, w1) -> fsurf w w1 (err_of r) /\ strict w w1 (err_of r).
+  Lemma write_len_f (w : world) r w1 : w_write_len D w = (r, w1) -> fsurfx w w1 (err_of r) /\ strict w w1 (err_of r).
   Proof. unfold w_write_len, tick. destruct (flt w) as [[[| n] eno] |] eqn:F; intros H; inversion H; subst; fin. Qed.
 
-  Lemma write_data_f id d (w : world) r w1 : w_write_data D id d w = (r, w1) -> fsurf w w1 (err_of r) /\ strict w w1 (err_of r).
+  Lemma write_data_f id d (w : world) r w1 : w_write_data D id d w = (r, w1) -> fsurfx w w1 (err_of r) /\ strict w w1 (err_of r).
   Proof. unfold w_write_data, tick. destruct (flt w) as [[[| n] eno] |] eqn:F; intros H; inversion H; subst; fin. Qed.
 
-  Lemma close_w_f id (w : world) r w1 : w_close_w D id w = (r, w1) -> fsurf w w1 (err_of r) /\ strict w w1 (err_of r).
+  Lemma close_w_f id (w : world) r w1 : w_close_w D id w = (r, w1) -> fsurfx w w1 (err_of r) /\ strict w w1 (err_of r).
   Proof. unfold w_close_w, tick. destruct (flt w) as [[[| n] eno] |] eqn:F; intros H; inversion H; subst; fin. Qed.
 
-  Lemma read_f (w : world) r w1 : w_read D w = (r, w1) -> fsurf w w1 (err_of r) /\ strict w w1 (err_of r).
-  Proof. unfold w_read, tick. destruct (flt w) as [[[| n] eno] |] eqn:F; intros H; inversion H; subst; fin. Qed.
-
-  Lemma close_r_f h (w : world) r w1 : w_close_r D h w = (r, w1) -> fsurf w w1 (err_of r) /\ strict w w1 (err_of r).
+  Lemma close_r_f h (w : world) r w1 : w_close_r D h w = (r, w1) -> fsurfx w w1 (err_of r) /\ strict w w1 (err_of r).
   Proof. unfold w_close_r, tick. destruct (flt w) as [[[| n] eno] |] eqn:F; intros H; inversion H; subst; fin. Qed.
 
-  Lemma open_r_f id (w : world) r w1 : w_open_r D id w = (r, w1) -> fsurf w w1 (err_of r).
+  Lemma open_r_f id (w : world) r w1 : w_open_r D id w = (r, w1) -> fsurfx w w1 (err_of r).
   Proof.
     unfold w_open_r, tick. destruct (flt w) as [[[| n] eno] |] eqn:F; simpl;
       try destruct (lookup_file D id (files D w)); intros H; inversion H; subst; fin.
   Qed.
 
-  Lemma fsurf_weaken w w1 e : fsurf w w1 None -> fsurf w w1 e.
+  Lemma fsurfx_weaken w w1 e : fsurfx w w1 None -> fsurfx w w1 e.
   Proof.
     intros (N & A0 & B). split; [exact N |]. split; [exact A0 |]. intros n eno F.
     destruct (B n eno F) as [X | (_ & X)]; [left; exact X | discriminate].
   Qed.
 
   (* after the fault has fired (and surfaced as e), whatever runs next cannot change that *)
-  Lemma fsurf_after w w1 w2 e e' : fsurf w w1 e -> flt w1 = None -> fsurf w1 w2 e' -> fsurf w w2 e.
+  Lemma fsurfx_after w w1 w2 e e' : fsurfx w w1 e -> flt w1 = None -> fsurfx w1 w2 e' -> fsurfx w w2 e.
   Proof.
     intros (N1 & A1 & B1) F1 (N2 & A2 & _). destruct (A2 F1) as (F2 & H2). split; [lia |]. split.
     - intros F. destruct (A1 F) as (_ & H1). split; congruence.
@@ -122,17 +120,17 @@ Section Faults.
     destruct (S ltac:(simpl; discriminate)) as (N & _). exact (N F).
   Qed.
 
-  Lemma write_all_f id ds : forall (w : world) e w1, write_all D id ds w = (e, w1) -> fsurf w w1 e /\ strict w w1 e.
+  Lemma write_all_f id ds : forall (w : world) e w1, write_all D id ds w = (e, w1) -> fsurfx w w1 e /\ strict w w1 e.
   Proof.
     induction ds as [| d r IH]; intros w e w1; simpl.
-    - intros H; inversion H; subst. split; [apply fsurf_refl | intros X; congruence].
+    - intros H; inversion H; subst. split; [apply fsurfx_refl | intros X; congruence].
     - destruct (w_write_len D w) as [[u | x] wa] eqn:E1; apply write_len_f in E1; destruct E1 as (F1 & S1); simpl in *.
       2: { intros H; inversion H; subst. split; assumption. }
       destruct (w_write_data D id d wa) as [[u2 | x2] wb] eqn:E2; apply write_data_f in E2; destruct E2 as (F2 & S2); simpl in *.
-      2: { intros H; inversion H; subst. split; [eapply fsurf_seq; eauto |].
+      2: { intros H; inversion H; subst. split; [eapply fsurfx_seq; eauto |].
            intros X. destruct (S2 X) as (Na & Fb). split; [| exact Fb].
            intros Fw. destruct F1 as (_ & A1 & _). destruct (A1 Fw) as (Fa & _). exact (Na Fa). }
-      intros H. apply IH in H. destruct H as (F3 & S3). split; [eapply fsurf_seq; [eapply fsurf_seq; eauto | exact F3] |].
+      intros H. apply IH in H. destruct H as (F3 & S3). split; [eapply fsurfx_seq; [eapply fsurfx_seq; eauto | exact F3] |].
       intros X. destruct (S3 X) as (Nb & Fc). split; [| exact Fc].
       intros Fw. destruct F1 as (_ & A1 & _). destruct (A1 Fw) as (Fa & _).
       destruct F2 as (_ & A2 & _). destruct (A2 Fa) as (Fb & _). exact (Nb Fb).
@@ -140,37 +138,37 @@ Section Faults.
 
   (* Sorter.__spill: the fault surfaces; a new descriptor, if any, is number nx w *)
   Lemma spill_f (s : wsorter) (w : world) e s' w' : w_spill s w = (e, s', w') ->
-    fsurf w w' e /\
+    fsurfx w w' e /\
     (wfds s' = wfds s \/ (wfds s' = wfds s ++ [Some (nx w)] /\ (S (nx w) <= nx w')%nat)).
   Proof.
     intros H. unfold SorterWorld.w_spill in H.
     destruct (wstash s) as [| e0 st] eqn:Es.
-    { inversion H; subst. split; [apply fsurf_refl | left; reflexivity]. }
+    { inversion H; subst. split; [apply fsurfx_refl | left; reflexivity]. }
     destruct (w_mkstemp D w) as [[id | x] w1] eqn:E1; apply mkstemp_f in E1; destruct E1 as (F1 & S1 & I1); simpl in *.
     2: { inversion H; subst. split; [exact F1 | left; reflexivity]. }
     destruct (I1 id eq_refl) as (-> & N1).
-    assert (Fin : forall e s2 w2, fsurf w1 w2 e -> wfds s2 = wfds (ws_register K D s (nx w)) ->
-                  fsurf w w2 e /\ (wfds s2 = wfds s \/ (wfds s2 = wfds s ++ [Some (nx w)] /\ (S (nx w) <= nx w2)%nat))).
-    { intros e2 s2 w2 F Eq. split; [eapply fsurf_seq; eauto |]. right. split; [exact Eq |]. destruct F as (N & _). lia. }
+    assert (Fin : forall e s2 w2, fsurfx w1 w2 e -> wfds s2 = wfds (ws_register K D s (nx w)) ->
+                  fsurfx w w2 e /\ (wfds s2 = wfds s \/ (wfds s2 = wfds s ++ [Some (nx w)] /\ (S (nx w) <= nx w2)%nat))).
+    { intros e2 s2 w2 F Eq. split; [eapply fsurfx_seq; eauto |]. right. split; [exact Eq |]. destruct F as (N & _). lia. }
     destruct (w_open_w D (nx w) w1) as [[u | x] w2] eqn:E2; apply open_w_f in E2; destruct E2 as (F2 & S2); simpl in *.
     2: { inversion H; subst. apply Fin; [exact F2 | reflexivity]. }
     destruct (sort_entries K D lt pick_min (wstash s)) as [l |] eqn:Esrt.
     2: { destruct (w_close_w D (nx w) w2) as [[u3 | x3] w3] eqn:E3; apply close_w_f in E3; destruct E3 as (F3 & S3); simpl in *;
            inversion H; subst; (apply Fin; [| reflexivity]).
-         - eapply fsurf_seq; [exact F2 |]. apply fsurf_weaken. exact F3.
-         - eapply fsurf_seq; eauto. }
+         - eapply fsurfx_seq; [exact F2 |]. apply fsurfx_weaken. exact F3.
+         - eapply fsurfx_seq; eauto. }
     destruct (write_all D (nx w) (map snd l) w2) as [[x |] w3] eqn:E3; apply write_all_f in E3; destruct E3 as (F3 & S3).
     - destruct (S3 ltac:(discriminate)) as (_ & Fw3).
       destruct (w_close_w D (nx w) w3) as [r4 w4] eqn:E4; apply close_w_f in E4; destruct E4 as (F4 & S4).
       destruct (strict_none_ok _ _ _ S4 Fw3) as (u4 & ->).
       inversion H; subst. apply Fin; [| reflexivity].
-      eapply fsurf_seq; [exact F2 |]. eapply fsurf_after; eauto.
+      eapply fsurfx_seq; [exact F2 |]. eapply fsurfx_after; eauto.
     - destruct (w_close_w D (nx w) w3) as [[u4 | x4] w4] eqn:E4; apply close_w_f in E4; destruct E4 as (F4 & S4); simpl in *;
-        inversion H; subst; (apply Fin; [| reflexivity]); (eapply fsurf_seq; [exact F2 |]; eapply fsurf_seq; eauto).
+        inversion H; subst; (apply Fin; [| reflexivity]); (eapply fsurfx_seq; [exact F2 |]; eapply fsurfx_seq; eauto).
   Qed.
 
   Lemma add_f (s : wsorter) x (w : world) e s' w' : w_add s x w = (e, s', w') ->
-    (fsurf w w' e \/ (w' = w /\ wfds s' = wfds s)) /\
+    (fsurfx w w' e \/ (w' = w /\ wfds s' = wfds s)) /\
     (wfds s' = wfds s \/ (wfds s' = wfds s ++ [Some (nx w)] /\ (S (nx w) <= nx w')%nat)).
   Proof.
     intros H. unfold SorterWorld.w_add in H. destruct (keyf x) as [k | ex]; [| inversion H; subst; split; [right; split |]; auto].
@@ -180,14 +178,65 @@ Section Faults.
     - inversion H; subst. split; [right; split |]; auto.
   Qed.
 
+  (* reads may also fail with EOFError (eof = true): the relaxed form *)
+  Definition fsurf (w w1 : world) (e : option exn) : Prop :=
+    (nx w <= nx w1)%nat /\
+    (flt w = None -> flt w1 = None /\ hit D w1 = hit D w) /\
+    (forall n eno, flt w = Some (n, eno) ->
+       (exists n', flt w1 = Some (n', eno) /\ hit D w1 = hit D w) \/
+       (flt w1 = None /\ (e = Some (OSError eno) \/ (eof = true /\ e = Some PlainException)))).
+
+  Lemma fsurf_lift w w1 e : fsurfx w w1 e -> fsurf w w1 e.
+  Proof.
+    intros (N & A0 & B). split; [exact N |]. split; [exact A0 |]. intros n eno F.
+    destruct (B n eno F) as [X | (X & Y)]; [left; exact X | right; split; [exact X | left; exact Y]].
+  Qed.
+
+  Lemma fsurf_refl w : fsurf w w None.
+  Proof. apply fsurf_lift, fsurfx_refl. Qed.
+
+  Lemma fsurf_seq w w1 w2 e : fsurf w w1 None -> fsurf w1 w2 e -> fsurf w w2 e.
+  Proof.
+    intros (N1 & A1 & B1) (N2 & A2 & B2). split; [lia |]. split.
+    - intros F. destruct (A1 F) as (F1 & H1). destruct (A2 F1) as (F2 & H2). split; congruence.
+    - intros n eno F. destruct (B1 n eno F) as [(n' & F1 & H1) | (_ & [X | (_ & X)])]; try discriminate.
+      destruct (B2 n' eno F1) as [(n'' & F2 & H2) | X]; [left; exists n''; split; congruence | right; exact X].
+  Qed.
+
+  Lemma fsurf_weaken w w1 e : fsurf w w1 None -> fsurf w w1 e.
+  Proof.
+    intros (N & A0 & B). split; [exact N |]. split; [exact A0 |]. intros n eno F.
+    destruct (B n eno F) as [X | (_ & [X | (_ & X)])]; [left; exact X | discriminate | discriminate].
+  Qed.
+
+  Lemma fsurf_then w w2 w3 e : fsurf w w2 e -> fsurf w2 w3 None -> fsurf w w3 e.
+  Proof.
+    intros (N1 & A1 & B1) (N2 & A2 & B2). split; [lia |]. split.
+    - intros F. destruct (A1 F) as (F2 & H2). destruct (A2 F2) as (F3 & H3). split; congruence.
+    - intros n eno F. destruct (B1 n eno F) as [(n' & F2 & H2) | (F2 & X)].
+      + destruct (B2 n' eno F2) as [(n'' & F3 & H3) | (_ & [Y | (_ & Y)])]; try discriminate.
+        left. exists n''. split; congruence.
+      + right. destruct (A2 F2) as (F3 & _). split; assumption.
+  Qed.
+
+  Lemma read_f (w : world) r w1 : w_read D eof w = (r, w1) -> fsurf w w1 (err_of r).
+  Proof.
+    unfold w_read, tick. destruct (flt w) as [[[| n] eno] |] eqn:F; intros H; inversion H; subst.
+    - unfold fsurf. simpl. split; [lia |]. split; [intros X; congruence |]. intros n0 eno0 F0.
+      rewrite F in F0. inversion F0; subst. right. split; [reflexivity |].
+      destruct eof; [right; split; reflexivity | left; reflexivity].
+    - apply fsurf_lift. fin.
+    - apply fsurf_lift. fin.
+  Qed.
+
   Lemma advance_f h ds (w : world) r w1 : w_advance h ds w = (r, w1) -> fsurf w w1 (err_of r).
   Proof.
-    unfold SorterWorld.w_advance. destruct (w_read D w) as [[u | x] wa] eqn:E1; apply read_f in E1; destruct E1 as (F1 & _); simpl in *.
+    unfold SorterWorld.w_advance. destruct (w_read D eof w) as [[u | x] wa] eqn:E1; apply read_f in E1; rename E1 into F1; simpl in *.
     2: { intros H; inversion H; subst; exact F1. }
     destruct ds as [| d r0].
-    - destruct (w_close_r D h wa) as [[u2 | x2] wb] eqn:E2; apply close_r_f in E2; destruct E2 as (F2 & _); simpl in *;
+    - destruct (w_close_r D h wa) as [[u2 | x2] wb] eqn:E2; apply close_r_f in E2; destruct E2 as (F2 & _); apply fsurf_lift in F2; simpl in *;
         intros H; inversion H; subst; eapply fsurf_seq; eauto.
-    - destruct (w_read D wa) as [[u2 | x2] wb] eqn:E2; apply read_f in E2; destruct E2 as (F2 & _); simpl in *.
+    - destruct (w_read D eof wa) as [[u2 | x2] wb] eqn:E2; apply read_f in E2; rename E2 into F2; simpl in *.
       2: { intros H; inversion H; subst. eapply fsurf_seq; eauto. }
       assert (F12 : fsurf w wb None) by (eapply fsurf_seq; eauto).
       destruct (dec d) as [a | x3]; [| intros H; inversion H; subst; apply fsurf_weaken; exact F12].
@@ -198,7 +247,7 @@ Section Faults.
   Proof.
     induction paths as [| p ps IH]; intros w r w1; simpl.
     - intros H; inversion H; subst. apply fsurf_refl.
-    - destruct (w_open_r D p w) as [[[h c] | x] wa] eqn:E1; apply open_r_f in E1; simpl in E1.
+    - destruct (w_open_r D p w) as [[[h c] | x] wa] eqn:E1; apply open_r_f in E1; apply fsurf_lift in E1; simpl in E1.
       2: { intros H; inversion H; subst; exact E1. }
       destruct (w_advance h c wa) as [[[cu |] | x] wb] eqn:E2; apply advance_f in E2; simpl in E2.
       + destruct (w_cursors ps wb) as [[l | x] wc] eqn:E3; apply IH in E3; simpl in E3; intros H; inversion H; subst;
@@ -224,22 +273,13 @@ Section Faults.
   Lemma drop_f (w : world) : fsurf w (drop_iter D w) None.
   Proof. unfold fsurf, drop_iter. simpl. split; [lia |]. split; [auto |]. intros n eno F. left. exists n. auto. Qed.
 
-  Lemma fsurf_then w w2 w3 e : fsurf w w2 e -> fsurf w2 w3 None -> fsurf w w3 e.
-  Proof.
-    intros (N1 & A1 & B1) (N2 & A2 & B2). split; [lia |]. split.
-    - intros F. destruct (A1 F) as (F2 & H2). destruct (A2 F2) as (F3 & H3). split; congruence.
-    - intros n eno F. destruct (B1 n eno F) as [(n' & F2 & H2) | (F2 & X)].
-      + destruct (B2 n' eno F2) as [(n'' & F3 & H3) | (_ & Y)]; [| discriminate]. left. exists n''. split; congruence.
-      + right. destruct (A2 F2) as (F3 & _). split; assumption.
-  Qed.
-
   Lemma iter_f (s : wsorter) p (w : world) ys e s' w' : w_iter s p w = ((ys, e), s', w') ->
     (fsurf w w' e \/ (w' = w /\ wfds s' = wfds s)) /\
     (wfds s' = wfds s \/ (wfds s' = wfds s ++ [Some (nx w)] /\ (S (nx w) <= nx w')%nat)).
   Proof.
     intros H. unfold SorterWorld.w_iter in H. destruct p as [| p]; [inversion H; subst; split; [right; split |]; auto |].
     destruct (negb (is_nil (wpaths s)) || walways K D s).
-    - destruct (w_spill s w) as [[e1 s1] w1] eqn:E1. apply spill_f in E1. destruct E1 as (F1 & I1).
+    - destruct (w_spill s w) as [[e1 s1] w1] eqn:E1. apply spill_f in E1. destruct E1 as (F1 & I1). apply fsurf_lift in F1.
       destruct e1 as [x |]; [inversion H; subst; split; [left; exact F1 | exact I1] |].
       assert (Fin : forall e2 w2, fsurf w1 w2 e2 ->
                 (fsurf w (drop_iter D w2) e2 \/ (drop_iter D w2 = w /\ wfds s1 = wfds s)) /\
@@ -347,6 +387,9 @@ Section Faults.
     - destruct (sort_entries K D lt pick_min (wstash s)); inversion H; subst; left; split; reflexivity.
   Qed.
 
+  Lemma fsurfx_nx w w' e : fsurfx w w' e -> (nx w <= nx w')%nat.
+  Proof. intros (N & _). exact N. Qed.
+
   Lemma fsurf_nx w w' e : fsurf w w' e -> (nx w <= nx w')%nat.
   Proof. intros (N & _). exact N. Qed.
 
@@ -356,13 +399,13 @@ Section Faults.
     pose proof (add_WI A K D keyf lt enc pick_min s x w e s' w' I H) as I'.
     pose proof (add_res _ _ _ _ _ _ I H) as R. destruct (add_f _ _ _ _ _ _ H) as (F & Id).
     eapply WI2_grow; [exact I2 | exact I' | | apply merge_id; assumption].
-    destruct F as [F | (-> & _)]; [apply (fsurf_nx _ _ _ F) | lia].
+    destruct F as [F | (-> & _)]; [apply (fsurfx_nx _ _ _ F) | lia].
   Qed.
 
   Lemma iter_WI2 (s : wsorter) p (w : world) ys e s' w' : WI2 s w -> w_iter s p w = ((ys, e), s', w') -> WI2 s' w'.
   Proof.
     intros I2 H. pose proof I2 as (I & _).
-    pose proof (iter_WI A K D keyf lt dec pick_min s p w _ s' w' I H) as I'.
+    pose proof (iter_WI A K D keyf lt dec pick_min eof s p w _ s' w' I H) as I'.
     pose proof (iter_res _ _ _ _ _ _ I H) as R. destruct (iter_f _ _ _ _ _ _ _ H) as (F & Id).
     eapply WI2_grow; [exact I2 | exact I' | | apply merge_id; assumption].
     destruct F as [F | (-> & _)]; [apply (fsurf_nx _ _ _ F) | lia].
@@ -370,7 +413,7 @@ Section Faults.
 
   (* ---------- Sorter.close under the fault schedule ---------- *)
   Lemma os_close_f fd (w : world) r w1 : w_os_close D fd w = (r, w1) ->
-    fsurf w w1 (err_of r) /\
+    fsurfx w w1 (err_of r) /\
     (In fd (fds D w) -> strict w w1 (err_of r)) /\
     (flt w <> None -> flt w1 = None -> hit D w1 = Some COsClose) /\
     (forall x, In x (fds D w) -> x <> fd -> In x (fds D w1)).
@@ -386,7 +429,7 @@ Section Faults.
   Qed.
 
   Lemma os_remove_f id (w : world) r w1 : w_os_remove D id w = (r, w1) ->
-    fsurf w w1 (err_of r) /\
+    fsurfx w w1 (err_of r) /\
     (r = Raise (OSError false) -> flt w <> None /\ flt w1 = None) /\
     (flt w <> None -> flt w1 = None -> hit D w1 = Some COsRemove) /\
     fds D w1 = fds D w.
@@ -549,7 +592,13 @@ Section Faults.
   (* (a) the operation during which the scheduled call fails reports it *)
   Definition fires (w w' : world) (eno : bool) : Prop := (exists n, flt w = Some (n, eno)) /\ flt w' = None.
 
-  Lemma fsurf_fires w w' e eno : fsurf w w' e -> fires w w' eno -> e = Some (OSError eno).
+  Lemma fsurfx_fires w w' e eno : fsurfx w w' e -> fires w w' eno -> e = Some (OSError eno).
+  Proof.
+    intros (_ & _ & B) ((n & F) & F'). destruct (B n eno F) as [(n' & X & _) | (_ & X)]; [congruence | exact X].
+  Qed.
+
+  Lemma fsurf_fires w w' e eno : fsurf w w' e -> fires w w' eno ->
+    e = Some (OSError eno) \/ (eof = true /\ e = Some PlainException).
   Proof.
     intros (_ & _ & B) ((n & F) & F'). destruct (B n eno F) as [(n' & X & _) | (_ & X)]; [congruence | exact X].
   Qed.
@@ -573,6 +622,7 @@ Section Faults.
   Theorem step_surfaces (s : wsorter) o (w : world) out ys s' w' eno :
     WI2 s w -> w_step s o w = (out, ys, s', w') -> fires w w' eno ->
     out = ORaise (OSError eno) \/
+    (eof = true /\ (exists p, o = OpIter A p) /\ out = ORaise PlainException) \/
     (eno = true /\ o = OpClose A /\ hit D w' = Some COsRemove /\ out = OOk).
   Proof.
     intros I H Fi. unfold SorterWorld.w_step in H. destruct o as [x | p |].
@@ -580,17 +630,18 @@ Section Faults.
       { inversion H; subst. destruct Fi as ((n & F) & F'). congruence. }
       destruct (w_add s x w) as [[e s1] w1] eqn:E. inversion H; subst. left.
       destruct (add_f _ _ _ _ _ _ E) as ([F | (-> & _)] & _).
-      + rewrite (fsurf_fires _ _ _ _ F Fi). reflexivity.
+      + rewrite (fsurfx_fires _ _ _ _ F Fi). reflexivity.
       + destruct Fi as ((n & F) & F'). congruence.
     - destruct (tainted K D s).
       { inversion H; subst. destruct Fi as ((n & F) & F'). congruence. }
-      destruct (w_iter s p w) as [[[ys0 e] s1] w1] eqn:E. inversion H; subst. left.
+      destruct (w_iter s p w) as [[[ys0 e] s1] w1] eqn:E. inversion H; subst.
       destruct (iter_f _ _ _ _ _ _ _ E) as ([F | (-> & _)] & _).
-      + rewrite (fsurf_fires _ _ _ _ F Fi). reflexivity.
+      + destruct (fsurf_fires _ _ _ _ F Fi) as [-> | (Ef & ->)]; [left; reflexivity |].
+        right. left. split; [exact Ef |]. split; [exists p; reflexivity | reflexivity].
       + destruct Fi as ((n & F) & F'). congruence.
     - destruct (w_close s w) as [[e s1] w1] eqn:E. inversion H; subst.
       destruct (close_f _ _ _ _ _ I E) as (_ & P).
-      destruct (close_post_fires _ _ _ _ P Fi) as [-> | (-> & Hh & ->)]; [left; reflexivity | right; auto].
+      destruct (close_post_fires _ _ _ _ P Fi) as [-> | (-> & Hh & ->)]; [left; reflexivity | right; right; auto].
   Qed.
 
   (* without a pending fault nothing the sorter does to its files fails in close() *)
@@ -623,7 +674,7 @@ Section Faults.
   (* ---------- the writer ---------- *)
   Notation wwriter := (wwriter A K D).
   Notation wr_add := (wr_add A K D keyf lt enc pick_min).
-  Notation wr_close := (wr_close A K D keyf lt dec pick_min).
+  Notation wr_close := (wr_close A K D keyf lt dec pick_min eof).
 
   Inductive wr_reachable (c : nat) (f : option (nat * bool)) : wwriter -> world -> Prop :=
   | wreach_init : wr_reachable c f (wr_new A K D c) (world0 D f)
@@ -660,13 +711,14 @@ Section Faults.
     { inversion H; subst. destruct Fi as ((n & F) & F'). congruence. }
     destruct (w_add (ws A K D wr) x w) as [[e s1] w1] eqn:E. inversion H; subst.
     destruct (add_f _ _ _ _ _ _ E) as ([F | (-> & _)] & _).
-    - rewrite (fsurf_fires _ _ _ _ F Fi). reflexivity.
+    - rewrite (fsurfx_fires _ _ _ _ F Fi). reflexivity.
     - destruct Fi as ((n & F) & F'). congruence.
   Qed.
 
   Theorem wr_close_surfaces (wr : wwriter) (w : world) o wr' w' eno :
     WI2 (ws A K D wr) w -> wr_close wr w = (o, wr', w') -> fires w w' eno ->
-    o = ORaise (OSError eno) \/ (eno = true /\ hit D w' = Some COsRemove /\ o = OOk).
+    o = ORaise (OSError eno) \/ (eof = true /\ o = ORaise PlainException) \/
+    (eno = true /\ hit D w' = Some COsRemove /\ o = OOk).
   Proof.
     intros I H Fi. unfold SorterWorld.wr_close in H. destruct (tainted K D (ws A K D wr)).
     { inversion H; subst. destruct Fi as ((n & F) & F'). congruence. }
@@ -674,18 +726,18 @@ Section Faults.
     pose proof (iter_WI2 _ _ _ _ _ _ _ I E) as I1.
     destruct (iter_f _ _ _ _ _ _ _ E) as (F1 & _).
     destruct e as [x |].
-    - inversion H; subst. left. destruct F1 as [F1 | (-> & _)].
-      + pose proof (fsurf_fires _ _ _ _ F1 Fi) as X. inversion X. reflexivity.
+    - inversion H; subst. destruct F1 as [F1 | (-> & _)].
+      + destruct (fsurf_fires _ _ _ _ F1 Fi) as [X | (Ef & X)]; inversion X; [left; reflexivity | right; left; auto].
       + destruct Fi as ((n & F) & F'). congruence.
     - destruct (w_close s1 w1) as [[e2 s2] w2] eqn:E2. destruct (close_f _ _ _ _ _ I1 E2) as (_ & P).
       assert (Fi1 : fires w1 w' eno -> e2 = Some (OSError eno) \/ (eno = true /\ hit D w' = Some COsRemove /\ e2 = None)).
       { intros X. destruct e2; inversion H; subst; exact (close_post_fires _ _ _ _ P X). }
       assert (Fw1 : exists n', flt w1 = Some (n', eno)).
       { destruct Fi as ((n & F) & F'). destruct F1 as [(_ & _ & B) | (-> & _)]; [| exists n; exact F].
-        destruct (B n eno F) as [(n' & X & _) | (_ & X)]; [exists n'; exact X | discriminate]. }
+        destruct (B n eno F) as [(n' & X & _) | (_ & [X | (_ & X)])]; [exists n'; exact X | discriminate | discriminate]. }
       assert (Fw' : flt w' = None) by (destruct Fi; assumption).
       assert (W2 : w' = w2) by (destruct e2; inversion H; reflexivity). subst w'.
-      destruct (Fi1 (conj Fw1 Fw')) as [-> | (-> & Hh & ->)]; inversion H; subst; [left; reflexivity | right; auto].
+      destruct (Fi1 (conj Fw1 Fw')) as [-> | (-> & Hh & ->)]; inversion H; subst; [left; reflexivity | right; right; auto].
   Qed.
 
 End Faults.
